@@ -40,7 +40,8 @@ class _Worker:
         self.log = []      # everything the trial's runs wrote so far (all runs)
         self.todo = []     # what the current run's worker will still write
         self.proc = None
-        self.mark = None   # None | "pause" | "stop"
+        self.pause_mark = False   # LocalBackend: the files "pause" and "stop" in the trial folder
+        self.stop_mark = False
 
 
 class ScriptedPollBackend(TrialBackend):
@@ -98,9 +99,9 @@ class ScriptedPollBackend(TrialBackend):
         w.proc = RUNNING
 
     def _status(self, w):
-        if w.mark == "stop":
+        if w.stop_mark:
             return Status.stopped
-        if w.mark == "pause":
+        if w.pause_mark:
             return Status.paused
         return {RUNNING: Status.in_progress, EXIT_OK: Status.completed, EXIT_FAIL: Status.failed,
                 KILLED: Status.in_progress}[w.proc]
@@ -122,15 +123,15 @@ class ScriptedPollBackend(TrialBackend):
             w.proc = KILLED
 
     def _pause_trial(self, trial_id, result):
-        self.w[trial_id].mark = "pause"
+        self.w[trial_id].pause_mark = True
         late, self.next_late = self.next_late, 0
         self._kill_after(trial_id, late)
 
     def _resume_trial(self, trial_id):
-        self.w[trial_id].mark = None
+        self.w[trial_id].pause_mark = False
 
     def _stop_trial(self, trial_id, result):
-        self.w[trial_id].mark = "stop"
+        self.w[trial_id].stop_mark = True
         late, self.next_late = self.next_late, 0
         self._kill_after(trial_id, late)
 
@@ -158,7 +159,7 @@ class ScriptedPollBackend(TrialBackend):
 
     # ---- the rest of the interface ---------------------------------------------
     def busy_trial_ids(self):
-        return [(i, Status.in_progress) for i, w in self.w.items() if w.mark is None and w.proc == RUNNING]
+        return [(i, Status.in_progress) for i, w in self.w.items() if not (w.pause_mark or w.stop_mark) and w.proc == RUNNING]
 
     def stdout(self, trial_id):
         return []
